@@ -524,6 +524,7 @@ type c17In struct {
 	Perm     *uint32   `json:"perm,omitempty"`
 	Request  string    `json:"request,omitempty"`
 	Shape    *c17Shape `json:"shape,omitempty"`
+	BV       *c17BV    `json:"bv,omitempty"` // part "bv" (c17d.go)
 }
 
 func u32p(v uint32) *uint32 { return &v }
@@ -1104,6 +1105,10 @@ func c17Replay(c *lib.Ctx) bool {
 		checkC17OSDir(c, in.Kind, in.Perm)
 	case "rs-shape":
 		checkC17RSShapes(c, in.Shape)
+	case "bv":
+		if !c17BVReplay(c, in.BV) {
+			return false
+		}
 	default:
 		return false
 	}
